@@ -22,7 +22,7 @@ Vec(c, f) ==
       altkind |-> IF alt = <<>> THEN "none" ELSE c.alt, alt |-> alt, cls |-> InputClasses(c.m), fsrc |-> SrcOf(c),
       flt |-> [i \in 1..Len(c.fl) |-> [f |-> c.fl[i], schema |-> IF a.verdict \in {"ok", "open"} THEN Prune(a.schema, c.fl[i]) ELSE Blank("tree", "")]]]
 \* a sampled module set: no expectation, only the input
-RVec(c) == [fam |-> "R", mods |-> c.m, feats |-> FeatNames(c.e), verdict |-> "record", errs |-> {}, why |-> {},
+RVec(c) == [fam |-> "R", mods |-> c.m, feats |-> FeatNames(SrcEnabled(SrcOf(c), DeclIds(c.m))), verdict |-> "record", errs |-> {}, why |-> {},
             schema |-> Blank("tree", ""), open |-> <<>>, altkind |-> "none", alt |-> <<>>, cls |-> InputClasses(c.m), fsrc |-> SrcOf(c),
             flt |-> [i \in 1..Len(c.fl) |-> [f |-> c.fl[i], schema |-> Blank("tree", "")]]]
 GInit == fam \in Fams /\ chunk \in 1..Chunks /\ done = FALSE
